@@ -821,7 +821,16 @@ class Prover:
         return (0, INF)
 
     def range_item(self, t):
-        """t = (next(Range{a,b}) as Some).0  ->  (a term, b term) of the range it iterates"""
+        """t = (next(Range{a,b}) as Some).0  ->  (a term, b term) of the range it iterates;
+        also the component of a zip(..) item that comes from a Range"""
+        if t[0] == "field" and t[1][0] == "field" and t[1][2] == 0 and t[1][1][0] == "downcast":
+            for lp in util.for_loops(self.ctx, self.se):
+                if strip(lp["elem"]) == t[1] and lp["init_call"] is not None:
+                    src = strip(lp["init_call"][2][0])
+                    if util.is_call(src) and src[1].endswith("::zip") and t[2] in (0, 1):
+                        comp = strip(src[2][t[2]])
+                        if comp[0] == "agg" and comp[2] == "std::ops::Range":
+                            return util.numnorm(comp[4][0]), util.numnorm(comp[4][1])
         if t[0] == "field" and t[2] == 0 and t[1][0] == "downcast":
             nx = t[1][1]
             if util.is_call(nx) and nx[1].endswith("::next") and "Range" in nx[1]:
